@@ -4,8 +4,8 @@
    evaluated by vm_compute).  Shapes include m<n, m>n and inner dimension one.
    Generated once from checks/C09.py's reference definitions; the expected results are the
    mathematically specified ones. *)
-From Coq Require Import List Arith ZArith.
-From LibaV Require Import C09.LinalgDefs C09.LinalgSpec.
+From Coq Require Import List Arith NArith ZArith.
+From LibaV Require Import C09.LinalgDefs C09.LinalgSpec C09.LinalgWide C09.LinalgWideProofs.
 Import ListNotations.
 
 Example ex_T1_3 :
@@ -217,3 +217,55 @@ Example ex_mulTT_3x1x2 :
   length X = 1 * 3 /\ length Y = 2 * 1 /\ length (cells b0) = 6 /\
   mulTT Z 0%Z Z.add Z.mul 3 1 2 X Y b0 = Ok (mkbuf [(-16); 0; 32; 0; 36; 0]%Z 19).
 Proof. vm_compute. repeat split. Qed.
+
+(* ---- the width hypothesis U32 (LinalgSpec.v) of the theorems is satisfiable by every a_uint
+   value, and by nothing else: U32 is exactly "representable in 32 bits". *)
+Example ex_U32_small : U32 0 /\ U32 1 /\ U32 3 /\ U32 1000.
+Proof. unfold U32. repeat split; reflexivity. Qed.
+
+Example ex_U32_every_a_uint : forall x : N, (x < 4294967296)%N -> U32 (N.to_nat x).
+Proof. intros x H. unfold U32. rewrite N2Nat.id. exact H. Qed.
+
+Example ex_U32_max : U32 (N.to_nat 4294967295).
+Proof. apply ex_U32_every_a_uint. reflexivity. Qed.
+
+Example ex_U32_tight : ~ U32 (N.to_nat 4294967296).
+Proof. unfold U32. rewrite N2Nat.id. intro H. discriminate H. Qed.
+
+(* the wrap of the model is real: the same offset expressions DO wrap when evaluated with a
+   narrower type than the C uses (this is what a change of `a_size` to `a_uint` in
+   a_real_diag1 does: (n+1)*i at n = 65537, i = 65535 is 2^32 + 65534) *)
+Example ex_wrap32_bites :
+  wrap32 (N.to_nat (65538 * 65535)) = N.to_nat 65534 /\ wrap64 (N.to_nat (65538 * 65535)) = N.to_nat (65538 * 65535).
+Proof.
+  unfold wrap32, wrap64. rewrite !N2Nat.id. split.
+  - f_equal.
+  - f_equal.
+Qed.
+
+(* ---- the N-indexed model (LinalgWide.v): hypotheses of the wide theorems are satisfiable ---- *)
+(* a 65537 x 65537 matrix (more than 2^32 cells) that is zero except for A[65535][65535] = 9, a decoy
+   at the cell a 32-bit offset would read, and A[1][1] = 3: run by vm_compute in binary *)
+Example ex_diag1N_65537 :
+  let A := mksparse (65537 * 65537)%N [(4295032830%N, 9%Z); (65534%N, 4%Z); (65538%N, 3%Z)] in
+  (65537 < 4294967296)%N /\ slen A = (65537 * 65537)%N /\
+  match diag1NZ 65537%N A 65537%N with
+  | Ok w => (N.of_nat (length w) = 65537%N /\
+             filter (fun p => negb (Z.eqb (snd p) 0)) w = [(1%N, 3%Z); (65535%N, 9%Z)])
+  | _ => False
+  end.
+Proof. vm_compute. repeat split; reflexivity. Qed.
+
+(* N = (a_size)n + 1 = 2^32 at n = UINT_MAX *)
+Example ex_diag2N_uintmax :
+  let A := mksparse (2 * 4294967295)%N [(4294967296%N, 8%Z); (0%N, 3%Z)] in
+  slen A = (2 * 4294967295)%N /\
+  diag2NZ 2%N 4294967295%N A 2%N = Ok [(0%N, 3%Z); (1%N, 8%Z)].
+Proof. vm_compute. repeat split; reflexivity. Qed.
+
+Example ex_represents :
+  represents 0%Z (mksparse 4%N [(3%N, 7%Z); (0%N, 5%Z)]) [5; 0; 0; 7]%Z.
+Proof.
+  split; [reflexivity|]. cbn [length]. intros k Hk.
+  do 4 (destruct k as [|k]; [reflexivity|]). exfalso. do 4 apply Nat.succ_lt_mono in Hk. inversion Hk.
+Qed.
